@@ -70,7 +70,7 @@ theorem good_set_prep {e : Env} {as : State} {i : Nat} {w : W} (h : Good e as i 
     unfold Node.responseSent at this
     rw [← heq, hempty] at this; cases this
   refine ⟨h.g, ⟨rn.my, by simpa [W.upd] using rn.lens, rn.chain, rn.height, ?_, rn.pidx, ?_, rn.commit, rn.cv, rn.lastCv,
-    rn.cache, ?_⟩, h.outs, h.st, h.lt⟩
+    rn.cache, ?_⟩, h.outs, h.blk, h.st, h.lt⟩
   · left
     refine ⟨hbi, hview, ?_, hgc⟩
     intro hg
